@@ -28,7 +28,7 @@ UNARY_EDITS = (
     ("calc", "z", ("neg", R("q"))),
     ("calc", "z", ("add", R("a"), R("q"))),
     ("calc", "a", ("neg", R("b"))),
-    ("calc", "x", ("neg", R("a"))),
+    ("calc", "x", ("neg", R("b"))),
     ("calc", "c", ("add", R("a"), R("b"))),
     ("sel", Q_GT_0),
     ("sel", ("and", ("gt", R("a"), L(0)), Q_GT_0)),
@@ -152,6 +152,8 @@ class C20(Check):
         sql_edits = with_flags(UNARY_EDITS + SLICE_EDITS, ()) + SQL_EDITS
         multi_edits = with_flags(UNARY_EDITS + SLICE_EDITS, ("s", "e1")) + MULTI_EDITS
         self.edit_sets = {"it": set(it_edits), "sql": set(sql_edits), "multi": set(multi_edits)}
+        for base, edits in ((IT_BASE, it_edits), (SQL_BASE, sql_edits), (MULTI_BASE, multi_edits)):
+            assert not set(base) & set(edits), "an operation cannot be both a state-building step and an edit"
         d = 4 if tier == "quick" else 5
         return [
             SubSpace(f"it/base+edits/d{d}", iw, ("L", "E0"), IT_BASE + it_edits, d),
